@@ -21,10 +21,12 @@ compile and the proof obligation breaks):
                name!(...);                      logging / assertion macros: skipped
                x = e;   self.f.g = e;   self.f.g += e;    rebindings (of a local, of a nested field)
                if c { block }                   (no else, followed by more statements)
+               let pat = match s { .. };        arms give the value, or `return`
+               continue;
                while c { block }                a loop: a function of its own, recursive on fuel
   tail         match s { pat => tail | block , ... }
                if c { block } else { block }            a pure expression
-  conditions c a == b, a < b, a > b, a <= b, a >= b, x.is_empty(), !c
+  conditions c a == b, a < b, a > b, a <= b, a >= b, x.is_empty(), a bool field or variable, !c, c || c, c && c
   scrutinee s  e | e? | self.f.take()
   patterns     _  [mut] x  0  None  Some(p)  Path::Ctor(p, ..)  Path::Ctor  (p, q)  p | q (no bindings)
   expressions  integer literals, (), variables, x.f, self.f, e as T (casts are dropped: see below),
@@ -49,13 +51,18 @@ Semantics given to it (the trusted part of this translator):
     variables bound by a pattern keep the value they were bound to (they are clones or are not
     used after an assignment to what they borrow from - checked by rustc, not here);
   * `e?`: Err(x) is returned at once (with self and the effect objects as they are then), Ok(v)
-    continues with v; `return e` ends the function with e;
+    continues with v; on an Option, None is returned at once and Some(v) continues with v;
+    `return e` ends the function with e; `continue` is the next round of the enclosing loop;
+    `unreachable!(..)` is the value Panic;
   * external functions and T::new are uninterpreted: the theorems about the translation state
     what they assume of them as hypotheses;
   * a self-recursive `return self.f(args)` is a call on one unit less of fuel, and a `while` loop
     is a separate recursive function taking one unit of fuel per round, whose parameters are the
     variables in scope and whose exit branch is what follows the loop (the theorems state how much
     fuel is enough; with too little the result is VStuck);
+  * `o.context(XSnafu)` on an Option is Ok(v) / Err(Error::X), on a Result Ok(v) / Err(Error::X(e));
+    a method of a parameter named in the group's "handles" (`stream.write(..)`, `entry.insert(..)`)
+    is a stateful external that receives the handle, the arguments and self;
   * `as usize` / `as u64` casts are dropped (u64 -> usize is the identity on the 64-bit targets the
     crate is built for here); Vec::with_capacity(n) is the empty vector (capacity is not
     observable); `.clone()` and `&` / `*` are the identity on values.
@@ -160,7 +167,10 @@ class Parser:
                     self.eat()
                     self.skip_type(["="])
                 self.eat("=")
-                e = self.expr()
+                if self.peek() == "match":
+                    e = ("matchexpr", self.match())
+                else:
+                    e = self.expr()
                 self.eat(";")
                 stmts.append(("let", pat, e))
                 continue
@@ -212,11 +222,22 @@ class Parser:
                 self.eat(")"); self.eat(";")
                 stmts.append(("append", x, y))
                 continue
+            if tok == "continue":
+                self.eat(); self.eat(";")
+                stmts.append(("continuestmt",))
+                continue
             if tok == "while":
                 self.eat()
                 c = self.cond()
                 body = self.block()
                 stmts.append(("while", c, body))
+                continue
+            # x += e;
+            if re.match(r"[a-z_][a-z0-9_]*$", tok) and tok not in ("self", "match", "if", "let", "return") and self.peek(1) == "+" and self.peek(2) == "=":
+                x = self.eat(); self.eat("+"); self.eat("=")
+                e = self.expr()
+                self.eat(";")
+                stmts.append(("assign", x, ("add", ("var", x), e)))
                 continue
             # x = e;   (a local rebinding)
             if re.match(r"[a-z_][a-z0-9_]*$", tok) and tok not in ("self", "match", "if", "let", "return") and self.peek(1) == "=":
@@ -280,6 +301,13 @@ class Parser:
         return j + 1 < len(self.t) and self.t[j + 1] != "else"
 
     def cond(self):
+        c = self.cond1()
+        while self.peek() in ("||", "&&"):
+            op = self.eat()
+            c = ("or" if op == "||" else "and", c, self.cond1())
+        return c
+
+    def cond1(self):
         neg = False
         if self.peek() == "!":
             self.eat()
@@ -314,6 +342,16 @@ class Parser:
     def tail(self):
         if self.peek() == "match":
             return self.match()
+        if self.peek() == "return":
+            self.eat()
+            return ("ret", self.expr())
+        if self.peek() == "continue":
+            self.eat()
+            return ("continue",)
+        if self.peek() in ("unreachable", "panic") and self.peek(1) == "!":
+            self.eat(); self.eat()
+            self.skip_parens()
+            return ("panic",)
         if self.peek() == "if":
             self.eat()
             c = self.cond()
@@ -421,7 +459,9 @@ class Parser:
             elif self.peek() == "as":
                 self.eat()
                 ty = self.eat()
-                if ty not in ("usize", "u64"):
+                if ty == "u16":
+                    e = ("cast16", e)
+                elif ty not in ("usize", "u64", "u32"):
                     raise Fail("cast to %s" % ty)
             elif self.peek() == "?":
                 self.eat()
@@ -553,6 +593,9 @@ class Gen:
         self.recursive = False
         self.uses_fuel = False
         self.loops = []
+        self.again = []
+        self.handles = set()
+        self.fuelcalls = set()
         self.ty = " * ".join(["val"] * (len(threaded) + 1))
 
     def fresh(self, base):
@@ -569,6 +612,8 @@ class Gen:
             raise Fail("unbound variable %s" % x[1])
         if k == "field":
             return "(v_field %s %s)" % (cstr(x[2]), self.e(x[1], env))
+        if k == "cast16":
+            return "(v_u16 %s)" % self.e(x[1], env)
         if k == "struct":
             return "(VR [%s])" % "; ".join("(%s, %s)" % (cstr(f), self.e(v, env)) for f, v in x[2])
         if k == "closureval":
@@ -603,6 +648,8 @@ class Gen:
                 return "(VBytes [])"
             if p in ("std::cmp::min", "cmp::min") and len(args) == 2:
                 return "(v_min %s %s)" % (self.e(args[0], env), self.e(args[1], env))
+            if p in ("u32::from", "u64::from", "usize::from", "u16::from") and len(args) == 1:
+                return self.e(args[0], env)
             if p == "T::new":
                 # the associated function of the type parameter: what it builds depends on T
                 return "(t_new [%s])" % "; ".join(self.e(a, env) for a in args)
@@ -615,6 +662,11 @@ class Gen:
             if m == "fail" and recv[0] == "ctor" and recv[1].endswith("Snafu") and not args:
                 # the snafu context selector XSnafu builds the variant Error::X
                 return "(VC \"Err\" [VC %s []])" % cstr("Error::" + recv[1][:-5])
+            if m == "fail" and recv[0] == "struct" and recv[1].endswith("Snafu") and not args:
+                return "(VC \"Err\" [VC %s [%s]])" % (cstr("Error::" + recv[1][:-5]), "; ".join(self.e(v, env) for _, v in recv[2]))
+            if m == "context" and len(args) == 1 and args[0][0] == "ctor" and args[0][1].endswith("Snafu"):
+                # Option::context(XSnafu): Some(v) -> Ok(v), None -> Err(Error::X); Result::context: Err(e) -> Err(Error::X(e))
+                return "(v_context %s %s)" % (cstr("Error::" + args[0][1][:-5]), self.e(recv, env))
             if recv[0] == "var" and recv[1] in self.effects:
                 raise Fail("effect call %s.%s used as a value" % (recv[1], m))
             if m == "clone" and not args:
@@ -631,6 +683,10 @@ class Gen:
     def cond(self, c, env):
         if c[0] == "not":
             return "(negb %s)" % self.cond(c[1], env)
+        if c[0] == "or":
+            return "(%s || %s)" % (self.cond(c[1], env), self.cond(c[2], env))
+        if c[0] == "and":
+            return "(%s && %s)" % (self.cond(c[1], env), self.cond(c[2], env))
         if c[0] == "cmp":
             op, a, b = c[1], self.e(c[2], env), self.e(c[3], env)
             return {"==": "(v_eqb %s %s)" % (a, b), "<": "(v_ltb %s %s)" % (a, b), ">": "(v_ltb %s %s)" % (b, a),
@@ -665,13 +721,17 @@ class Gen:
         """does evaluating x change self (a call of a translated &mut self function, an operation on a
         channel end of self), or return early (`?`)?"""
         k = x[0]
-        if k == "try":
+        if k in ("try", "matchexpr"):
             return True
+        if k == "cast16":
+            return self.effectful(x[1])
         if k == "method":
             recv, m, args = x[1], x[2], x[3]
             if recv == ("var", "self") and m in self.calls and self.calls[m] in self.mutcalls:
                 return True
-            if self.stateful_recv(recv):
+            if self.stateful_recv(recv) and m not in ("len", "is_empty"):
+                return True
+            if recv[0] == "var" and recv[1] in self.handles:
                 return True
             if m in ("map_err", "unwrap_or_else"):
                 return True
@@ -690,9 +750,16 @@ class Gen:
         if kind == "try":
             def after(env2, v):
                 r, okv, err = self.fresh("tried"), self.fresh("okval"), self.fresh("err")
-                return "let %s := %s in\nmatch %s with\n| VC \"Err\" [%s] => %s\n| VC \"Ok\" [%s] =>\n%s\n| _ => %s\nend" % (
-                    r, v, r, err, self.ret("(VC \"Err\" [%s])" % err, env2), okv, k(env2, okv), self.stuck(env2))
+                kk = self.fresh("after")
+                # Result: Err(e) returns Err(e); Option: None returns None; Ok(v) / Some(v) go on with v
+                return "let %s := %s in\nlet %s := fun %s : val =>\n%s in\nmatch %s with\n| VC \"Err\" [%s] => %s\n| VC \"Ok\" [%s] => %s %s\n| VC \"None\" [] => %s\n| VC \"Some\" [%s] => %s %s\n| _ => %s\nend" % (
+                    r, v, kk, okv, k(env2, okv), r, err, self.ret("(VC \"Err\" [%s])" % err, env2), okv, kk, okv,
+                    self.ret("(VC \"None\" [])", env2), okv, kk, okv, self.stuck(env2))
             return self.ev(x[1], env, after)
+        if kind == "matchexpr":
+            return self.match(x[1], env, k)
+        if kind == "cast16":
+            return self.ev(x[1], env, lambda env2, v: k(env2, "(v_u16 %s)" % v))
         if kind == "method":
             recv, m, args = x[1], x[2], x[3]
             if m == "map_err" and len(args) == 1 and args[0][0] == "closure":
@@ -715,7 +782,11 @@ class Gen:
                 n, v = self.fresh("self"), self.fresh("v")
                 env2 = dict(env)
                 env2["self"] = n
-                return "let '(%s, %s) := %s %s in\n%s" % (n, v, self.calls[m], " ".join([env["self"]] + [self.e(a, env) for a in args]), k(env2, v))
+                fuel = ""
+                if self.calls[m] in self.fuelcalls:
+                    fuel = "fuel "
+                    self.uses_fuel = True
+                return "let '(%s, %s) := %s %s%s in\n%s" % (n, v, self.calls[m], fuel, " ".join([env["self"]] + [self.e(a, env) for a in args]), k(env2, v))
             if m == "unwrap_or_else" and len(args) == 1 and args[0][0] == "closure":
                 _, cpat, cbody = args[0]
 
@@ -725,6 +796,15 @@ class Gen:
                     return ("let %s := %s in\nmatch %s with\n| VC \"Some\" [%s] =>\n%s\n| VC \"None\" [] =>\n%s\n| _ => %s\nend" % (
                         r, v, r, sv, k(env2, sv), self.ev(cbody, env2, k), self.stuck(env2)))
                 return self.ev(recv, env, after)
+            if m == "context" and len(args) == 1 and args[0][0] == "ctor" and args[0][1].endswith("Snafu"):
+                return self.ev(recv, env, lambda env2, v: k(env2, "(v_context %s %s)" % (cstr("Error::" + args[0][1][:-5]), v)))
+            if recv[0] == "var" and recv[1] in self.handles:
+                # a handle obtained from self (a HashMap entry): the operation goes to self
+                n, v = self.fresh("self"), self.fresh("v")
+                env2 = dict(env)
+                env2["self"] = n
+                return "let '(%s, %s) := ext_st %s [%s] %s in\n%s" % (
+                    n, v, cstr("%s.%s" % (recv[1], m)), "; ".join([env[recv[1]]] + [self.e(a, env) for a in args]), env["self"], k(env2, v))
             if self.stateful_recv(recv):
                 if "self" not in self.threaded:
                     raise Fail("channel operation in a function that does not take &mut self")
@@ -816,6 +896,10 @@ class Gen:
             if self.effectful(ex):
                 return self.ev(ex, env, lambda env2, _v: cont(env2))
             raise Fail("expression statement %r" % (ex,))
+        if kind == "continuestmt":
+            if not self.again:
+                raise Fail("continue outside a loop")
+            return self.again[-1](env, None)
         if kind == "assign":
             n = self.fresh(s[1])
             env = dict(env)
@@ -838,7 +922,9 @@ class Gen:
 
             def again(env2, _v):
                 return "(%s fuel_ %s)" % (lname, " ".join(env2[v] for v in names))
+            self.again.append(again)
             body_code = self.block(body, inner, again)
+            self.again.pop()
             rest_code = cont(inner)
             self.loops.append("Fixpoint %s (fuel : nat) %s{struct fuel} : %s :=\nmatch fuel with\n| O => %s\n| S fuel_ =>\n(if %s then\n%s\nelse\n%s)\nend." % (
                 lname, "".join("(%s : val) " % inner[v] for v in names), self.ty, self.ret("VStuck", inner),
@@ -856,6 +942,14 @@ class Gen:
     def tail(self, t, env, k):
         if t[0] == "value":
             return self.ev(t[1], env, k)
+        if t[0] == "ret":
+            return self.ev(t[1], env, lambda env2, v: self.ret(v, env2))
+        if t[0] == "continue":
+            if not self.again:
+                raise Fail("continue outside a loop")
+            return self.again[-1](env, None)
+        if t[0] == "panic":
+            return self.ret("(VC \"Panic\" [])", env)
         if t[0] == "ifc":
             return "(if %s then\n%s\nelse\n%s)" % (self.cond(t[1], env), self.block(t[2], env, k), self.block(t[3], env, k))
         if t[0] == "match":
@@ -917,7 +1011,7 @@ class Gen:
         raise Fail("pattern %r" % (p,))
 
 
-def translate(src, name, calls, effects, chans=(), mutcalls=None):
+def translate(src, name, calls, effects, chans=(), mutcalls=None, handles=(), fuelcalls=None):
     fn_only = name.split(".")[-1]
     p = Parser(tokenize(find_fn(src, name)), fn_only)
     fname, params, mutself, body = p.fn()
@@ -926,6 +1020,8 @@ def translate(src, name, calls, effects, chans=(), mutcalls=None):
     if mutcalls is not None and threaded == ["self"]:
         mutcalls.add(cname)
     g = Gen(src, calls, threaded, fn_only, cname, chans, mutcalls or ())
+    g.handles = set(handles)
+    g.fuelcalls = fuelcalls if fuelcalls is not None else set()
     env = {x: x for x in params}
     text = g.block(body, env, lambda env2, v: g.ret(v, env2))
     ty = " * ".join(["val"] * (len(threaded) + 1))
@@ -937,6 +1033,8 @@ def translate(src, name, calls, effects, chans=(), mutcalls=None):
             cname, ps, ty, g.ret("VStuck", env), text))
     if g.uses_fuel:
         ps = "(fuel : nat) " + ps
+        if fuelcalls is not None:
+            fuelcalls.add(cname)
     return "\n\n".join(g.loops + ["Definition %s %s: %s :=\n%s." % (cname, ps, ty, text)])
 
 
@@ -966,7 +1064,9 @@ if __name__ == "__main__":
     calls = {m: "gen_" + t.replace(".", "_") for m, t in spec.get("calls", {}).items()}
     effects = spec.get("effects", [])
     chans = spec.get("channels", [])
+    handles = spec.get("handles", [])
     mutcalls = set()
+    fuelcalls = set()
     out = [HEADER % ", ".join(sorted(set(p for p, _ in fns)))]
     ok = True
     done = set()
@@ -974,7 +1074,7 @@ if __name__ == "__main__":
         # a call may only go to a function translated before it
         avail = {m: c for m, c in calls.items() if c in done}
         try:
-            out.append("(* ---- %s :: %s ---- *)\n" % (path, n) + translate(open(path).read(), n, avail, effects, chans, mutcalls))
+            out.append("(* ---- %s :: %s ---- *)\n" % (path, n) + translate(open(path).read(), n, avail, effects, chans, mutcalls, handles, fuelcalls))
             done.add("gen_" + n.replace(".", "_"))
         except (Fail, OSError) as ex:
             ok = False
